@@ -6,10 +6,40 @@ into Gen/FragGen.v) and compared with the implementation on every run; the speci
 evaluated inside Coq on the implementation's output (search for a failing input).  The generator
 below is token level and knows the expected answer (python mirror `strip_spec`, used only as the
 fallback oracle when the Coq side cannot be built)."""
+import ast
+import hashlib
+import os
 import re
 
 import common
 import lit
+
+# The helper functions PeekIter / collect_ring_number / fragment_iter are internal: their own return
+# values (the `rings` dict, the split of the text handed to strip_bonding_descriptors) are not
+# observable through the API.  The literal helper models are therefore compared with the code only
+# while the code IS the text that was modelled (normalised-AST digest, docstrings dropped); after an
+# edit of a helper the comparison at the level of strip_bonding_descriptors (always on) is the tie,
+# so a harmless rewrite of a helper is not reported.
+HELPER_DIGESTS = {'PeekIter': '2a719d61d093c600', 'collect_ring_number': '8aa57600181bbe94',
+                  'fragment_iter': '54c386d28f82b2cc'}
+
+
+def helper_digests():
+    out = {}
+    try:
+        tree = ast.parse(open(os.path.join(common.REPO, 'cgsmiles', 'read_fragments.py')).read())
+    except (OSError, SyntaxError):
+        return out
+    for n in tree.body:
+        if isinstance(n, (ast.FunctionDef, ast.ClassDef)) and n.name in HELPER_DIGESTS:
+            node = ast.parse(ast.unparse(n))
+            for d in ast.walk(node):
+                if (isinstance(d, (ast.FunctionDef, ast.ClassDef)) and d.body and isinstance(d.body[0], ast.Expr)
+                        and isinstance(getattr(d.body[0], 'value', None), ast.Constant)
+                        and isinstance(d.body[0].value.value, str)):
+                    d.body = d.body[1:] or [ast.Pass()]
+            out[n.name] = hashlib.sha1(ast.dump(node).encode()).hexdigest()[:16]
+    return out
 
 ORG = ['B', 'C', 'N', 'O', 'P', 'S', 'F', 'Cl', 'Br', 'I']
 AROM = ['b', 'c', 'n', 'o', 'p', 's']
@@ -320,7 +350,25 @@ class C13(common.Prop):
                       (98, 'harness: python and Coq render the tokens differently')])
 
     # -- cases -----------------------------------------------------------------------------
+    def helpers_enabled(self, ctx):
+        got = helper_digests()
+        ring = all(got.get(k) == HELPER_DIGESTS[k] for k in ('PeekIter', 'collect_ring_number'))
+        split = got.get('fragment_iter') == HELPER_DIGESTS['fragment_iter']
+        if not getattr(self, '_noted', False):
+            self._noted = True
+            if not ring:
+                ctx.notes.append('PeekIter/collect_ring_number differ from the modelled text: literal helper models not '
+                                 'compared this run (covered through strip_bonding_descriptors only)')
+            if not split:
+                ctx.notes.append('fragment_iter differs from the modelled text: split model not compared this run')
+        return ring, split
+
     def corpus(self, ctx):
+        ring_on, split_on = self.helpers_enabled(ctx)
+        return [c for c in self._corpus() if c['kind'] == 'strip' or (c['kind'] == 'ring' and ring_on)
+                or (c['kind'] == 'split' and split_on)]
+
+    def _corpus(self):
         C, O = A('C'), A('O')
         out = [
             # the three known defect classes (witnesses of the _refuted theorems)
@@ -355,9 +403,12 @@ class C13(common.Prop):
 
     def generate(self, ctx, n):
         rng = ctx.rng
+        ring_on, split_on = self.helpers_enabled(ctx)
         out = []
         for _ in range(n):
             r = rng.random()
+            if (r >= 0.92 and r < 0.96 and not ring_on) or (r >= 0.96 and not split_on):
+                r = rng.random() * 0.92
             if r < 0.72:
                 out.append(self.gen_judged(rng))
             elif r < 0.92:
